@@ -47,17 +47,60 @@ def build(prop):
     return eng, tasks
 
 
-def _init(prop):
-    global _ENGINE, _TASKS
+_TIER = 'quick'
+
+
+def _init(prop, tier='quick'):
+    global _ENGINE, _TASKS, _TIER
     _ENGINE, _TASKS = build(prop)
+    _TIER = tier
+
+
+def cvc5_recheck(queries):
+    """second back end (thorough tier): the same SMT-LIB query must get the same verdict from cvc5"""
+    import subprocess
+    import tempfile
+    out = {'agree': 0, 'disagree': [], 'undecided': 0, 'seconds': 0.0}
+    t0 = time.time()
+    with tempfile.TemporaryDirectory(prefix='sqv_cvc5_') as d:
+        for k, (name, status, smt) in enumerate(queries):
+            p = os.path.join(d, 'q%d.smt2' % k)
+            with open(p, 'w') as f:
+                f.write('(set-logic ALL)\n' + smt + ('\n(check-sat)\n' if '(check-sat)' not in smt else ''))
+            try:
+                r = subprocess.run(['/usr/bin/cvc5', '--tlimit=20000', p], capture_output=True, text=True, timeout=40)
+                verdict = (r.stdout.strip().splitlines() or ['error'])[0].strip()
+            except subprocess.TimeoutExpired:
+                verdict = 'timeout'
+            want = {'proved': 'unsat', 'refuted': 'sat', 'known': 'sat'}.get(status)
+            if verdict in ('sat', 'unsat') and want is not None:
+                if verdict == want:
+                    out['agree'] += 1
+                else:
+                    out['disagree'].append({'obligation': name, 'z3': status, 'cvc5': verdict})
+            else:
+                out['undecided'] += 1
+    out['seconds'] = round(time.time() - t0, 2)
+    return out
 
 
 def _run(label):
     try:
         t = [t for t in _TASKS if t.label == label][0]
+        queries = []
+        seen = set()
+        if _TIER == 'thorough':
+            def sink(ex, ob, goal):
+                if ob.static or ob.name in seen or ob.status not in ('proved', 'refuted', 'known'):
+                    return
+                seen.add(ob.name)
+                queries.append((ob.name, ob.status, _ENGINE.dump_smt(ex, goal)))
+            _ENGINE.smt_sink = sink
         r = _ENGINE.run_task(t)
         out = r.to_json()
         out['assumptions'] = sorted(getattr(_ENGINE, 'assumptions_seen', set()))
+        if _TIER == 'thorough':
+            out['cvc5'] = cvc5_recheck(queries)
         return out
     except Exception as e:      # pragma: no cover
         return {'key': label, 'role': '?', 'paths': 0, 'dead_paths': 0, 'undecided': [],
@@ -103,7 +146,7 @@ def run_symbolic(prop, tier, lock, jobs=None):
     jobs = jobs or min(16, max(1, len(run_labels)))
     t0 = time.time()
     ctx = mp.get_context('fork')
-    with ctx.Pool(jobs, initializer=_init, initargs=(prop,)) as pool:
+    with ctx.Pool(jobs, initializer=_init, initargs=(prop, tier)) as pool:
         # longest first
         order = sorted(run_labels, key=lambda l: -(lock or {}).get('tasks', {}).get(l, {}).get('time', 1.0))
         results = pool.map(_run, order, chunksize=1)
